@@ -3,7 +3,7 @@ from cfile import *
 
 PROP = "C04"
 KNOWN = {1: "multiline_literal_cut_by_strip_comments", 2: "sqlc_arg_spelling_changes_replaced_length", 3: "named_parameter_with_two_casts",
-         4: "named_parameters_numbered_in_traversal_order"}
+         4: "named_parameters_numbered_in_traversal_order", 6: "named_parameter_in_multi_column_assignment"}
 
 
 def end_to_end(rep, accepted, tier):
